@@ -29,6 +29,7 @@ import (
 	"errors"
 	"fmt"
 	"io"
+	"math"
 	"mime"
 	"os"
 	"path/filepath"
@@ -203,7 +204,11 @@ var metas = []metaT{
 	{"three", map[string]string{"buildId": "101", "emptyValue": "", "unicode": "héllo-世界-✓ <&>"}},
 }
 
-var expirySeconds = []int64{0, 3600, 86400} // never closer than 1 h to now (the statement's "1 s" would expire during the run)
+// the longest duration the API can express (whole seconds): signing time + duration lies after the year 2262,
+// beyond what fits into int64 nanoseconds since 1970
+const maxExpirySeconds = int64(math.MaxInt64 / int64(time.Second))
+
+var expirySeconds = []int64{0, 3600, 86400, maxExpirySeconds} // never closer than 1 h to now (the statement's "1 s" would expire during the run)
 
 type agentT struct {
 	Name  string
@@ -251,6 +256,34 @@ func blobContent(size int) []byte {
 	}
 	blobCache[size] = b
 	return b
+}
+
+type otherBlob struct {
+	Label   string
+	Content []byte
+}
+
+var otherCache = map[string][]byte{}
+
+// otherBlobs: blobs that are not the signed one - the same size with the last byte changed, and one byte longer.
+func otherBlobs(size int) []otherBlob {
+	base := blobContent(size)
+	blobMu.Lock()
+	defer blobMu.Unlock()
+	mk := func(label string, f func(b []byte) []byte) []byte {
+		k := fmt.Sprintf("%s/%d", label, size)
+		if b, ok := otherCache[k]; ok {
+			return b
+		}
+		b := f(append([]byte(nil), base...))
+		otherCache[k] = b
+		return b
+	}
+	var out []otherBlob
+	if size > 0 {
+		out = append(out, otherBlob{"same-size-last-byte-changed", mk("changed", func(b []byte) []byte { b[len(b)-1] ^= 1; return b })})
+	}
+	return append(out, otherBlob{"one-byte-longer", mk("longer", func(b []byte) []byte { return append(b, 0) })})
 }
 
 func blobDigest(size int, alg string) string {
@@ -1182,6 +1215,33 @@ func (w *world) roundTrip(r *hx.Run, c *caseT, in *instances) *result {
 		if !reflect.DeepEqual(desc, kept) {
 			res.note("blob/returned-descriptor-changed-by-later-calls") // aliasing of a returned value: not in the statement
 		}
+		// the blob handed to the verifier need not be the signed one. Whether such a verification is rejected is another
+		// property's business; IF it succeeds, the returned descriptor must be that of the blob that was read and verified
+		// (blobs delivered whole, default signing agent: neither dimension can matter here)
+		if (c.Delivery == "whole" || c.Delivery == "") && c.Agent == "default" {
+			settings := append([]verifyOpt{{label: "content-media-type-as-signed+nothing-required"}}, verifyOpts(meta, true)...)
+			for _, ob := range otherBlobs(t.Size) {
+				obDigest := specHash[c.Spec] + ":" + hexOf(specHash[c.Spec], ob.Content)
+				for _, vo := range settings {
+					mt := t.MT
+					if vo.noMT {
+						mt = ""
+					}
+					r.Eval(1)
+					d3, _, err := notation.VerifyBlob(ctx, in.v, bytes.NewReader(ob.Content), sig, notation.VerifyBlobOptions{
+						BlobVerifierVerifyOptions: notation.BlobVerifierVerifyOptions{SignatureMediaType: c.Format, UserMetadata: copyMap(vo.required)}, ContentMediaType: mt})
+					if err != nil {
+						res.note("other-blob-presented/" + ob.Label + ":rejected")
+						continue
+					}
+					res.note("other-blob-presented/" + ob.Label + ":accepted")
+					if string(d3.Digest) != obDigest || d3.Size != int64(len(ob.Content)) {
+						res.bad("blob/returned-descriptor-is-not-of-the-verified-blob", "VerifyBlob (ContentMediaType=%q UserMetadata=%s) succeeded for a blob that is not the signed one (%s: %d bytes, %s) and returned {digest:%q size:%d}, the descriptor of the signed blob",
+							mt, vt.MapString(vo.required), ob.Label, len(ob.Content), obDigest, d3.Digest, d3.Size)
+					}
+				}
+			}
+		}
 		return res
 	}
 
@@ -1458,7 +1518,7 @@ func report(r *hx.Run, c *caseT, res *result) string {
 
 func main() {
 	r := hx.New("C07")
-	r.Rule = "phase 1 (sequential, fresh process): for every key spec x format x signer kind x failing call {SignBlob, VerifyBlob} x failure point {0, half, all-but-one bytes} x delivery of the follow-up, a blob call whose reader fails is followed by an honest sign->verify round trip of the same signer and verifier instances; phase 2 (parallel): every element of key spec x leaf validity {long-lived, short-lived: ends 3 h from now, before signing time + 24 h} x format x signer kind x (32 OCI descriptors: annotations x every subset of urls/data/platform/artifactType | 4 blob sizes x 5 content media type spellings (2 common, 3 legal uncommon ones: case, spacing, quoting, parameter order) x 4 ways the readers deliver the bytes (the uncommon spellings meet the 1 MiB blob delivered whole only)) x user metadata x expiry duration x signing agent is signed once by the real signing API and the bytes verified by the real verification API once with the sign-side options and once for every other accepted setting of the verify-side options (blob content media type {as signed, not given} x required user metadata {none, one signed pair, all signed pairs}); one notation.SignOCI -> in-memory repository -> notation.Verify trip per (key spec, format); instance reuse: every ordered pair of four configurations done by the same signer and verifier instances; repository histories: for every key spec x signer kind, the artifact is signed through notation.SignOCI 1..3 times by a trusted or an untrusted signer (same leaf key and names, other CA keys) in either envelope format, at least once trusted, in every order, the scripted repository lists the signatures in push order all at once or one per page, then notation.Verify; non-trivial = distinct histories whose judged round trip succeeded (signature produced, verification succeeded), the only cases in which the reporting oracle is evaluated"
+	r.Rule = "phase 1 (sequential, fresh process): for every key spec x format x signer kind x failing call {SignBlob, VerifyBlob} x failure point {0, half, all-but-one bytes} x delivery of the follow-up, a blob call whose reader fails is followed by an honest sign->verify round trip of the same signer and verifier instances; phase 2 (parallel): every element of key spec x leaf validity {long-lived, short-lived: ends 3 h from now, before signing time + 24 h} x expiry duration {none, 1 h, 24 h, the longest expressible: 9223372036 s, ends after 2262} x format x signer kind x (32 OCI descriptors: annotations x every subset of urls/data/platform/artifactType | 4 blob sizes x 5 content media type spellings (2 common, 3 legal uncommon ones: case, spacing, quoting, parameter order) x 4 ways the readers deliver the bytes (the uncommon spellings meet the 1 MiB blob delivered whole only)) x user metadata x expiry duration x signing agent is signed once by the real signing API and the bytes verified by the real verification API once with the sign-side options and once for every other accepted setting of the verify-side options (blob content media type {as signed, not given} x required user metadata {none, one signed pair, all signed pairs}); one notation.SignOCI -> in-memory repository -> notation.Verify trip per (key spec, format); instance reuse: every ordered pair of four configurations done by the same signer and verifier instances; repository histories: for every key spec x signer kind, the artifact is signed through notation.SignOCI 1..3 times by a trusted or an untrusted signer (same leaf key and names, other CA keys) in either envelope format, at least once trusted, in every order, the scripted repository lists the signatures in push order all at once or one per page, then notation.Verify; non-trivial = distinct histories whose judged round trip succeeded (signature produced, verification succeeded), the only cases in which the reporting oracle is evaluated"
 	r.Assumptions = []string{
 		"RSASSA-PSS / ECDSA / SHA-2 of the Go standard library are correct (used by the scripted plugins, lib/refsig and the oracle's digest recomputation)",
 		"the scripted plugins are honest: they sign exactly the bytes handed to them with the hash named in the request and honour expiryDurationInSeconds",
@@ -1467,6 +1527,7 @@ func main() {
 		"only what the statement fixes is enforced; further observations (outcome.Error on success, payload content type, byte identity of the reported payload, lib/refsig's own verdict, what the envelope plugin is told, how SignOCI pushes, what SignOCI/notation.Verify return about the manifest, acceptance of other verify-side options, aliasing of returned values) are evidence only (recorded:<key>)",
 		"user metadata read back for an OCI target that has annotations of its own: every signed user pair must be present and nothing but signed pairs (the statement does not say whether the target's own annotations count as user metadata); without such annotations: equality",
 		"the envelope-generator contract has no signing-agent field: for that signer kind the agent dimension selects the plugin's envelope builder (lib/forge vs notation-core-go)",
+		"a blob that is not the signed one (last byte changed / one byte longer) is presented under every verify-side option setting: a rejection is recorded, not judged (not this statement); a success must return the descriptor of the blob that was read",
 		"media types are compared as RFC 2045 defines their equality (case of type/subtype/parameter names, spacing, quoting and parameter order do not matter), not as strings",
 		"the descriptor returned by VerifyBlob is judged on media type (the signed one, also when the verifier was not told a media type), digest and size; its annotations are recorded, not judged, but the returned descriptor may not differ between verifications of the same blob and signature under different verify-side options",
 		"the result of a call whose reader fails is recorded, not judged; only the honest round trip after it is judged (keys after-failed-read/...)",
@@ -1557,13 +1618,13 @@ func main() {
 								for ai, a := range agents {
 									full++
 									if !r.Thorough() {
-										// quick: a diagonal of the product (1 in 2); RSA-3072/4096 and the 1 MiB blob on a sparser one
+										// quick: a diagonal of the product (1 in 3); RSA-3072/4096 and the 1 MiB blob on a sparser one
 										// (1 in 4); OCI targets with a proper subset of the extra fields and blobs delivered in pieces on a
 										// diagonal too (1 in 6, combined 1 in 24; the 1 MiB blob in pieces 1 in 48)
 										big := td.t.Blob && td.t.Size > 1<<20
 										pieces := td.t.Blob && td.d != "whole"
 										subset := (!td.t.Blob && ti%16 != 0 && ti%16 != 15) || td.t.Variant
-										every := 2
+										every := 3
 										if slowSpec(spec) || big {
 											every = 4
 										}
@@ -1575,6 +1636,9 @@ func main() {
 										}
 										if wi > 0 {
 											every *= 4 // the second leaf validity window on a diagonal
+										}
+										if e == maxExpirySeconds {
+											every *= 3 // the extreme duration on a diagonal
 										}
 										if (si+wi+fi+ki+ti+mi+ei+ai)%every != 0 {
 											continue
